@@ -15,6 +15,7 @@
 -/
 import PgProofs.GenoIter
 import PgProofs.GenoValid
+import PgProofs.GenoValidate
 namespace Pg.Geno
 
 /-! ### Full statements -/
@@ -49,6 +50,15 @@ chosen candidates. -/
 theorem C11_spec_sound_complete (g : Spec) (hf : g.finite = true) (d : DNA) :
     d ∈ g.all ↔ Valid g d :=
   mem_all_iff g hf d
+
+/-- `spec.validate(d)` returns normally iff `d` satisfies the constraints — for every
+well-formed spec (floats, custom points and multi-choices included) and every DNA the constructor
+can build (`hnorm`: hereditarily normalised). In particular every one-step corruption of a member
+that is not itself a member is rejected. -/
+theorem C11_validate (g : Spec) (hw : g.wf = true) (d : DNA) (hd : hnorm d = true) :
+    g.validate d = true ↔ Valid g d := by
+  unfold Valid
+  rw [validate_eq_valid g hw d hd]
 
 /-! ### Proved: specs without multi-choices (spaces, single choices, conditional sub-spaces of any
 depth and width) -/
@@ -130,6 +140,7 @@ def exampleSpec : Spec :=
 
 example : exampleSpec.finite = true ∧ exampleSpec.wf = true ∧ exampleSpec.noMulti = true := by decide
 example : exampleSpec.all.length = 14 := by decide
+example : ∀ d ∈ exampleSpec.all, hnorm d = true := by decide
 example : exampleSpec.iter 15 = some (exampleSpec.all, true) := by decide
 
 /-- Instances of the full statements on multi-choices (all four `distinct × sorted` modes, with a
